@@ -8,6 +8,7 @@ use super::{
     ObjectPath,
 };
 use std::{
+    collections::VecDeque,
     io::{Result, Write},
     process::Command,
 };
@@ -192,8 +193,8 @@ impl<N, C> Topology<N, C> {
         let src = src.into();
 
         let mut visited = Vec::new();
-        let mut queue = Vec::new();
-        queue.push(QueueElement {
+        let mut queue = VecDeque::new();
+        queue.push_back(QueueElement {
             idx: self
                 .nodes
                 .iter()
@@ -204,7 +205,7 @@ impl<N, C> Topology<N, C> {
         });
 
         let mut mapping = FxHashMap::with_hasher(FxBuildHasher::default());
-        while let Some(cur) = queue.pop() {
+        while let Some(cur) = queue.pop_front() {
             if visited.contains(&cur.idx) {
                 continue;
             }
@@ -216,7 +217,7 @@ impl<N, C> Topology<N, C> {
 
             for edge in self.edges_by_id(cur.idx) {
                 if !visited.contains(&edge.to.id) {
-                    queue.push(QueueElement {
+                    queue.push_back(QueueElement {
                         idx: edge.to.id,
                         distance: cur.distance + 1,
                         next: Some(cur.next.clone().unwrap_or(edge)),
@@ -306,10 +307,10 @@ impl Topology<(), ()> {
     #[must_use]
     #[allow(clippy::missing_panics_doc)]
     pub fn spanned(root: ModuleRef) -> Self {
-        let mut modules = vec![root];
+        let mut modules = VecDeque::from([root]);
         let mut this = Self::default();
 
-        while let Some(module) = modules.pop() {
+        while let Some(module) = modules.pop_front() {
             let gates = module.gates();
 
             this.nodes.push(Node { data: (), module });
@@ -341,7 +342,7 @@ impl Topology<(), ()> {
                             {
                                 src_idx + 1 + offset
                             } else {
-                                modules.push(end.owner());
+                                modules.push_back(end.owner());
                                 src_idx + modules.len()
                             }
                         });
